@@ -296,6 +296,32 @@ def seipdv1(ctx, P):
         ctx.check(P + ':v1:fill_data:holdback-guard', 'R-dom', 'hashing/release in fill_data is dominated by the direct remaining() < MDC_LEN(22) rejection',
                   ok and bool(dg) and bool(upd), function=b.path, guards=[site(b, g) for g in dg], sinks=[site(b, u) for u in upd],
                   witness=fmt_path(b, wit) if wit else None)
+        # ... and that rejection is EXACT: 21 held-back octets are refused, 22 (an MDC with no plaintext in front of it in this
+        # fill - a message whose protected data ends exactly at a buffer refill) are accepted.  A stricter test refuses valid messages.
+        exact = []
+        for g, op, side in direct_cmp_switches(b, is_call_to(r'Buf::remaining$|BytesMut::len$'), lambda v: v == 22):
+            if g not in dg:
+                continue
+            tt = b.blocks[g]['t']
+            def taken(x, op=op, side=side, tt=tt, g=g):
+                a, c = (x, 22) if side == 0 else (22, x)
+                truth = {'Lt': a < c, 'Le': a <= c, 'Gt': a > c, 'Ge': a >= c, 'Eq': a == c, 'Ne': a != c}[op]
+                # condition local may be negated before the switch
+                neg = False
+                for s_ in reversed(b.blocks[g]['s']):
+                    if s_['d']['l'] == tt['o'].get('l') and s_['r']['k'] == 'un' and s_['r']['op'] == 'Not':
+                        neg = True
+                    break
+                val = int(truth != neg)
+                for v, bb in tt['targets']:
+                    if v == val:
+                        return bb
+                return tt['else']
+            exact.append((taken(21) not in can, taken(22) in can))
+        good = bool(exact) and any(r21 for r21, a22 in exact) and all(a22 for r21, a22 in exact)
+        ctx.check(P + ':v1:fill_data:holdback-guard-exact', 'R-table', 'the hold-back rejection refuses 21 buffered octets and no comparison with MDC_LEN refuses 22 (exactly remaining() < MDC_LEN)',
+                  good, function=b.path, table=[list(x) for x in exact],
+                  missing=None if good else 'the comparison of remaining() with MDC_LEN is not `< 22`: a valid message whose last refill holds only the MDC is refused (or a short tail accepted)')
         # the hashed/released end is len - MDC_LEN
         subs = b.stmts(lambda s: s['r']['k'] == 'bin' and s['r']['op'] in ('Sub', 'SubWithOverflow') and any('k' in o and o['k'].get('v') == 22 for o in s['r']['o']))
         ctx.check(P + ':v1:fill_data:end-is-len-minus-22', 'origin', 'the release bound in fill_data is computed as len - MDC_LEN',
